@@ -243,6 +243,18 @@ def _file_init_observed(prog, fi) -> bool:
                                              "dirname": os.path.dirname, "join": os.path.join})
             ev = Evaluator({}, modules={"os": {"path": pathmod}})
             ev.globals["Errors"] = lambda *a, **k: Obj("Errors")
+            # the path helpers however the module imports them: `from os.path import basename`, `import os.path as osp`,
+            # `from os import path`, pathlib.PurePath
+            import pathlib
+            for alias, (src, orig) in fi.mod.imports.items():
+                if src in ("os.path", "posixpath") and orig is not None and hasattr(os.path, orig):
+                    ev.globals[alias] = getattr(os.path, orig)
+                elif src in ("os.path", "posixpath") and orig is None and alias != "os":
+                    ev.modules[alias] = {k: getattr(os.path, k) for k in ("basename", "splitext", "split", "dirname", "join")}
+                elif src == "os" and orig == "path":
+                    ev.modules[alias] = {k: getattr(os.path, k) for k in ("basename", "splitext", "split", "dirname", "join")}
+                elif src == "pathlib" and orig in ("Path", "PurePath", "PurePosixPath"):
+                    ev.globals[alias] = pathlib.PurePosixPath
             me = Obj("File")
             ev.invoke(fi.node, [me, path], {})
             if (me.__dict__.get("basename"), me.__dict__.get("name"), me.__dict__.get("type")) != want:
